@@ -331,7 +331,7 @@ func join(a, b context, node parse.Node, nodeName string) context {
 
 	c := a
 	c.element.name = b.element.name
-	if c.eq(b) {
+	if c.eq(b) && a.state != stateSpecialElementBody {
 		// The contexts differ only by their element names. The element names from the conditional
 		// branches that are accumulated in c.element.names will be checked during action sanitization
 		// to ensure that they do not lead to different sanitization contexts.
